@@ -10,18 +10,18 @@ NOTES = {
  "C05": ("Lean proofs for vector-scalar operators and the reference matching semantics; counterexample theorems exhibiting the engine's join deviation (known finding KF-binary-matching).", "partial: the pinned vector-vector operator violates the property (recorded findings)"),
  "C06": ("Lean proofs: pointwise function operators commute with denotation, scalar(), clamp, step-invariant evaluation in reference and engine, time()/literals per step.", "math functions are uninterpreted operations of the value algebra"),
  "C07": ("Lean proofs: leaf cursor protocol enumerates exactly the grid for every step count and batch size, batches bounded, instant = one step, evalGrid is pointwise over the grid (append law).", "range-vs-instant equality of the whole engine is additionally checked on the real engine"),
- "C08": ("Lean proof by functional induction over newOperator's model that plan construction fails only with 'unsupported' (position-closed); dispatch tables pinned to regenerated facts; exhaustive vocabulary enumeration on the real engine.", "statelessness of plan construction w.r.t. storage is checked by the lifecycle oracle"),
+ "C08": ("Lean proof by functional induction over newOperator's model that plan construction fails only with 'unsupported' (position-closed); dispatch tables pinned to regenerated facts; the model's nativeness decision is compared with the real engine's for every query of an exhaustive vocabulary x position enumeration, which also checks counters, fallback results and that no natively accepted query fails internally.", "statelessness of plan construction w.r.t. storage is checked by the lifecycle oracle"),
  "C09": ("Lean proofs: SortMatchers, MergeSelects (whole-matcher subset; every matcher type; absent labels) and PropagateMatchers (pairs matched on all labels) preserve the selected series.", "lifting from selectors to whole expressions is by correspondence (opt oracle)"),
  "C10": ("Lean proofs of the union algebra (selection, range functions, pointwise ops, group, count-as-sum) the push-down relies on; pushed-down table pinned to regenerated facts; distributed-vs-central oracle on the real engine.", "partial: the rewrite (distribute.go) itself is not modelled"),
  "C11": ("Lean proofs: shard count irrelevant, merge order irrelevant (Perm), storage order irrelevant (Perm), unrelated series irrelevant.", "the Go scheduler is represented by the merge-order quantifier"),
  "C12": ("Lean: kernel-checked reachability of the pull/drain/consumer protocol (no write after close, no deadlock) for the regenerated features; regenerated fact that no package-level variable is written. Race detector run of concurrent queries validates.", "partial: memory accesses below the synchronisation skeleton are not modelled"),
- "C13": ("Lean: reachability proof that a panic below a pull goroutine never kills the process given the regenerated recover facts (and does without); every go site recovers; invalid k handled; planning total. Child-process panic injection validates.", "partial: worker goroutines and data-dependent index panics are covered by the runtime oracle only"),
- "C14": ("Lean: kernel-checked exhaustive reachability (all schedules, cancellation at any moment) of the concurrencyOperator protocol: no deadlock, no leak, consumer return implies cancel; counter-theorems for removed drain. Cancellation injection on the real engine validates.", "partial: bounded time = no stuck state; worker/coalesce components are covered by the runtime oracle only; model-level observation M1"),
+ "C13": ("Lean: reachability proof that a panic below a pull goroutine never kills the process given the regenerated recover facts (and does without); the worker group never sends on a closed channel or closes twice under cancellation at any moment (exhaustive reachability); every go site recovers except drain and workers; invalid k handled; planning total. Child-process panic injection and parameter-edge streams validate.", "partial: data-dependent index panics inside worker tasks are covered by the runtime oracle only"),
+ "C14": ("Lean: kernel-checked exhaustive reachability (all schedules, cancellation at any moment) of the concurrencyOperator protocol and of the worker-group protocol of the hash aggregation: no deadlock, no leak, consumer return implies cancel; counter-theorems for a removed drain goroutine and an unbuffered worker input. Cancellation injection on the real engine validates.", "partial: bounded time = no stuck state; coalesce fork-join is covered by the runtime oracle only; model-level observations M1, M2"),
  "C15": ("Lean: loader model never succeeds on an incomplete series set; errors propagate through Except and across the pull goroutine (reachability, no external cancel). Fault injection at every storage event kind validates.", "positional faults stand for the k-th callback"),
  "C16": ("Lean: hinted time range contains every sample a selector reads (range selectors, pinned selectors, lookback interval); window locality. Hints are compared with the reference engine's on the real code, and sufficiency by a trimming storage.", "partial: Func/Grouping hint fields are compared by the oracle only"),
  "C17": ("Lean: loader model closes every opened querier exactly once on every path, close is last; regenerated facts (one open site, one deferred close). Counting storage and label snapshots validate.", "partial: aliasing is observed by the harness, not modelled"),
  "C18": ("Lean: plan-wide contract theorem by induction over the typing derivation of all natively supported constructs: every operator of every plan emits per step IDs that index its series list and are pairwise distinct; scalar operators have one series (join tables, probe loop, k-aggregation, hash aggregation, histogram, timestamp selector included); batch bounds and step order of the leaf cursor. The verif-tag wrapper checks the full contract at every Series/Next on the real engine.", "partial: end-of-stream stays ended / no concurrent Next are covered by the wrapper only"),
- "C19": ("Lean: label-set well-formedness preserved by name dropping / keep / del / grouping; range results have no empty series; counterexample for the join's appended labels. Structural checks of every result on the real engine.", "partial: duplicate label sets (known findings)"),
+ "C19": ("Lean: plan-wide theorem that every operator's series labels are well-formed (sorted, no repeated name, no empty value) for plans whose joins carry no include labels; assembled range results carry root-operator label sets, strictly increasing timestamps and no empty series; counterexample for the join's appended include labels. Structural checks of every result on the real engine.", "partial: duplicate label sets and include labels (known findings)"),
  "C20": ("Lean: the model threads no state between queries (history = pointwise runs); regenerated fact that no package variable is written. Sequence oracle with snapshots validates on the real engine.", "partial: buffer reuse is observed by the harness, not modelled"),
 }
 
